@@ -94,8 +94,6 @@ Example C16_nonvacuous :
   (* the timestamp boundary: exactly two hours ahead of the clock passes, one second more does not *)
   check_block_header sha256d mainnet (b_hdr (gen_block 1231006505)) false (1231006505 - 7200) = Ok tt /\
   check_block_header sha256d mainnet (b_hdr (gen_block 1231006505)) false (1231006505 - 7201) = Err CheckHeaderErr /\
-  (* a changed header breaks the proof of work *)
-  check_block_header sha256d mainnet (b_hdr (gen_block 1231006506)) true 1231006506 = Err CheckPowErr /\
   (* an empty block is refused, whatever its header says *)
   check_block sha256d mainnet {| b_hdr := b_hdr (gen_block 0); b_vtx := [] |} false false 0 = Err CheckBlockErr /\
   (* the coinbase itself is checked: 1-byte script, value above the money supply *)
